@@ -47,7 +47,12 @@ var wkbCode = map[string]uint32{TPoint: 1, TLineString: 2, TPolygon: 3, TMultiPo
 // Coords returns every coordinate of the geometry.
 func (g *G) Coords() [][2]float64 {
 	var out [][2]float64
-	out = append(out, g.P...)
+	for _, p := range g.P {
+		if p[0] != p[0] || p[1] != p[1] { // POINT EMPTY is written as NaN NaN
+			continue
+		}
+		out = append(out, p)
+	}
 	for _, l := range g.L {
 		out = append(out, l...)
 	}
@@ -148,10 +153,14 @@ func EncodeWKB(w *bytes.Buffer, g *G) error {
 	putHeader(w, code)
 	switch g.T {
 	case TPoint:
-		if len(g.P) != 1 {
+		switch len(g.P) {
+		case 0: // POINT EMPTY is written as NaN NaN
+			putPoints(w, [][2]float64{{math.NaN(), math.NaN()}})
+		case 1:
+			putPoints(w, g.P)
+		default:
 			return errors.New("gpkgh: point needs one coordinate")
 		}
-		putPoints(w, g.P)
 	case TLineString:
 		putCount(w, len(g.P))
 		putPoints(w, g.P)
@@ -289,6 +298,9 @@ func decodeWKB(r *reader) *G {
 	switch code {
 	case 1:
 		g.T, g.P = TPoint, r.points(bo, 1)
+		if len(g.P) == 1 && (g.P[0][0] != g.P[0][0] || g.P[0][1] != g.P[0][1]) {
+			g.P = [][2]float64{} // POINT EMPTY (kept NaN-free so that it survives JSON)
+		}
 	case 2:
 		g.T = TLineString
 		g.P = r.points(bo, r.count(bo))
@@ -391,6 +403,9 @@ func DecodeBlob(b []byte) (*Blob, error) {
 func (g *G) ToGeom() geom.Geometry {
 	switch g.T {
 	case TPoint:
+		if len(g.P) == 0 {
+			return geom.Point{math.NaN(), math.NaN()}
+		}
 		return geom.Point(g.P[0])
 	case TLineString:
 		return geom.LineString(clonePts(g.P))
@@ -429,6 +444,9 @@ func cloneLines(l [][][2]float64) [][][2]float64 {
 func FromGeom(v geom.Geometry) (*G, error) {
 	switch x := v.(type) {
 	case geom.Point:
+		if x[0] != x[0] || x[1] != x[1] {
+			return &G{T: TPoint, P: [][2]float64{}}, nil
+		}
 		return &G{T: TPoint, P: [][2]float64{x}}, nil
 	case geom.LineString:
 		return &G{T: TLineString, P: clonePts(x)}, nil
